@@ -541,7 +541,7 @@ class Collection(object):
         self._store[object_id] = data
         try:
             self._ensure_uniques(data)
-        except DuplicateKeyError:
+        except Exception:
             # Rollback
             del self._store[object_id]
             raise
@@ -561,7 +561,7 @@ class Collection(object):
                     find_kwargs[key] = helpers.get_value_by_dot(new_data, key)
                 except KeyError:
                     find_kwargs[key] = None
-            if is_sparse and set(find_kwargs.values()) == {None}:
+            if is_sparse and all(value is None for value in find_kwargs.values()):
                 continue
             if partial_filter_expression is not None:
                 find_kwargs = {'$and': [partial_filter_expression, find_kwargs]}
